@@ -27,6 +27,7 @@ RULE = ("(a) every entry of generated dictionaries x access types rw/ro/wo/const
         "download), placed before / between / after successful transfers; (b) abort codes 0, 2^k, 2^k-1, every documented "
         "code and seeded random 32-bit codes injected at every protocol step of expedited, segmented and block transfers. "
         "Signature = (sub-check, refusal kind or step, type class, variant); all non-trivial.")
+RULE += (" " + "Widened later: a 'locked table' scenario: the application changes the access type of an array's element declaration on a node in service (ro, const, wo, rw again); members served before and fresh members must all follow it.")
 ASSUMPTIONS = ["accepted codes: wrong length {0x06070010, 0x06070012 too long, 0x06070013 too short}; no value {0x060A0023, 0x08000024}",
                "the multiplexer of an abort answering ccs=7 is not judged (bytes 1-3 of that request mean nothing)",
                "a refusal may come at initiate time or at the last segment (both name the transfer's multiplexer)",
